@@ -149,13 +149,22 @@ def trunc_offsets(sets, length, cfg, rng):
     return sorted(p for p in pts if 0 <= p < length)
 
 
+# big scenarios: the aligned and full representations first (32-bit tables in memory, 16-bit in the file)
+BIG_TABLES = ['-Caf', '-CaF', '-Ca', '-Cf', '-CF', '', '-Cem', '-Cfae', '-CFae', '-Cae', '-Caem', '-C', '-Ce', '-Cm', '-Cfe', '-CFe']
+
+
 def work(ctx, idx):
     wr = WorkResult()
     cfg = TIERS[ctx.tier]
     rng = ctx.rng('scn', idx)
     if idx % 4 == 3:
         return work_concat(ctx, idx, wr)
-    sc = scenario.gen_scenario(rng, forbid=('vtrail',))
+    # every fourth scenario is big (more than 127 DFA states: serialized elements wider than a byte)
+    # and cycles through the table representations
+    big = idx % 4 == 1
+    sc = scenario.gen_scenario(rng, forbid=('vtrail',), want={'big': True, 'tables': BIG_TABLES[(idx // 4) % len(BIG_TABLES)]} if big else None)
+    if big:
+        wr.stats['big-scenarios'] += 1
     if rng.random() < 0.3:
         sc.prefix = 'zz'
     tw, st, sv = variants(sc)
